@@ -139,7 +139,7 @@ func TestC02Server(t *testing.T) {
 		if !ev.Thorough() {
 			maxBody = 20000
 		}
-		s := gen.GenStream(t, 3, gen.ReqOpts{Fold: true, NearMiss: true, Expect: true, HTTP10: true, MaxBody: maxBody})
+		s := gen.GenStream(t, 3, gen.ReqOpts{Fold: true, NearMiss: true, Expect: true, HTTP10: true, ChunkExt: true, MaxBody: maxBody})
 		b := s.Bytes
 		marks := s.AllMarks()
 		var muts []string
